@@ -27,3 +27,35 @@ PROPS["C05"] = {
         "technique": "Lean 4 proof (refinement, induction over histories) + regenerated-kernel tie + differential correspondence"},
     "modelled": ["blocking AcquirePermit(s)WithMaxWait: timer/select modelled as a timed transition; concurrent callers are serialised by the stats mutex (FACTS)"],
 }
+
+PROPS["C03"] = {
+    "props": "Failsafe.Props.C03",
+    "ties": ["Failsafe.Tie.Breaker"],
+    "kernels": ["closed_check", "halfopen_check", "open_try", "open_remaining", "halfopen_try", "closed_capacity", "halfopen_capacity",
+                "ring_set_next", "counting_failure_rate", "counting_success_rate"],
+    "required_theorems": [
+        "Failsafe.Props.C03.ring_refines_lastN", "Failsafe.Props.C03.ring_counts_sum", "Failsafe.Props.C03.buckets_refine_window",
+        "Failsafe.Props.C03.closed_opens_iff", "Failsafe.Props.C03.closedShouldOpen_iff", "Failsafe.Props.C03.closed_count_opens_iff",
+        "Failsafe.Props.C03.open_admits_nothing_until", "Failsafe.Props.C03.halfopens_at", "Failsafe.Props.C03.remainingDelay_eq",
+        "Failsafe.Props.C03.open_ignores_records", "Failsafe.Props.C03.open_delay",
+        "Failsafe.Props.C03.halfopen_decides_within_capacity", "Failsafe.Props.C03.trial_permit_roundtrip",
+        "Failsafe.Props.C03.events_connected_path", "Failsafe.Props.C03.transition_evinv",
+        "Failsafe.Tie.Breaker.tie_closedCheck", "Failsafe.Tie.Breaker.tie_halfOpenCheck", "Failsafe.Tie.Breaker.tie_openTry",
+        "Failsafe.Tie.Breaker.tie_openRemaining", "Failsafe.Tie.Breaker.tie_setNext", "Failsafe.Tie.Breaker.tie_halfOpenCap",
+        "Failsafe.Tie.Breaker.tie_closedCap", "Failsafe.Tie.Breaker.tie_failureRate",
+    ],
+    "diff": [{"slice": "breaker", "n_quick": 300, "n_thorough": 3000, "seeds_thorough": 6, "n_search": 3000}],
+    "rule": "breaker slice through the virtual clock hook: configurations over count / ratio / period-count / period-rate failure thresholds x "
+            "none / success threshold / success ratio x fixed delay / delay function; 120 (quick) or 600 (thorough) operations per case from "
+            "{RecordSuccess, RecordFailure, execution success/failure through the policy, TryAcquirePermit, Open, HalfOpen, Close, clock advance}; "
+            "advances drawn from {0, 1 ns, remaining delay, remaining-1, to the next slice boundary, boundary-1, period+x, random}; "
+            "non-trivial = the operation emitted a state-change event or refused a permit",
+    "assumptions": ["clock values are non-negative and non-decreasing", "configuration is well-formed (Cfg.WF: thresholds within capacities, rate 1..100, period >= 10 ns)",
+                    "rate function: native Float = Go float64 (validated by DIFF); PctComplement (pct f n + pct (n-f) n >= 100) is a hypothesis of the rate-threshold half-open theorem, validated for n <= 200 on every run"],
+    "modelled": ["timedStats.currentBucket is tied by DIFF only (pointer aliasing in a loop is outside the translator's subset)",
+                 "listeners are invoked under the breaker mutex; the model records the events in order"],
+    "manifest": {
+        "text": "Lean 4 theorems over the breaker model: the bit ring is the last-N window of the record history for every capacity and length; the ten time slices + summary are the per-slice counts of (head-10, head] for every history (uint subtractions never truncate); the closed state opens exactly on the record after which the threshold holds; open admits nothing before the delay and half-opens exactly at elapsed = delay; remaining delay exact; a fresh half-open state is decided within its trial capacity for every result sequence (WF configurations; rate case under PctComplement); events form a connected path with the old state's metrics, for every operation history. Tie: GEN for the ten decision/stat kernels (Generated = Model proved each run) + DIFF of every public operation through the virtual clock hook.",
+        "note": "Trusted: Lean kernel; translator + schema; harness canonicalisation; native Float = float64 (validated differentially); clock non-decreasing; WF configurations. timedStats.currentBucket is DIFF-only.",
+        "technique": "Lean 4 proof (refinement to history windows, inductive invariants, induction over operation histories) + regenerated-kernel tie + differential correspondence via clock hook"},
+}
